@@ -4,6 +4,8 @@ obligations (unnamed invariants, proof steps, body-safety), when P is among the 
 properties below, or - for body-safety obligations (call preconditions incl. expect/unwrap,
 overflow, bounds, termination) - when the unit is listed in the property's `safety_units`."""
 
+U9 = ["U9a", "U9b", "U9c", "U9d", "U9e", "U9f", "U9g", "U9h"]
+
 # unit -> properties that untagged obligations of the unit count against
 UNIT_DEFAULT_PROPS = {
     "U1": ["C13"],
@@ -15,12 +17,23 @@ UNIT_DEFAULT_PROPS = {
     "U8": ["C05"],
     "U10": ["C09"],
 }
+for u in U9:
+    UNIT_DEFAULT_PROPS[u] = ["C04"]
+
+RUNTIME = ["U6", "U7", "U8"] + U9
 
 # property -> units run (all feature sets of the unit), units whose panic-freedom counts for it
 PROPS = {
-    "C02": {"units": ["U3", "U4", "U6", "U7", "U8"], "safety_units": ["U6", "U7"]},
+    "C01": {"units": ["U2", "U3", "U4", "U6", "U7", "U8"]},
+    "C02": {"units": ["U3", "U4", "U6", "U7", "U8"] + U9, "safety_units": ["U6", "U7"]},
+    "C03": {"units": ["U3", "U4", "U6", "U7", "U8"] + U9},
+    "C04": {"units": ["U7"] + U9, "safety_units": ["U6", "U7"] + U9},
     "C05": {"units": ["U8"], "safety_units": ["U8"]},
+    "C06": {"units": ["U2", "U4", "U6", "U7", "U8"]},
+    "C07": {"units": ["U9c", "U9d", "U9g", "U9h"]},
+    "C08": {"units": ["U10"] + U9},
     "C09": {"units": ["U10"], "safety_units": ["U10"]},
+    "C10": {"units": U9},
     "C11": {"units": ["U1", "U2", "U3", "U4"], "safety_units": ["U1", "U2", "U3", "U4"]},
     "C13": {"units": ["U1", "U4"]},
     "C18": {"units": ["U1"]},
